@@ -147,6 +147,13 @@ theorem stepRet_acct {s s' : State} {i id : Nat} {pc : RPc}
       u_clear_leaf h hcl
     · simp only [Option.some.injEq] at hs; subst hs
       u_leaf h ao s
+  case push =>
+    split at hs
+    · rename_i hcl
+      simp only [Option.some.injEq] at hs; subst hs
+      u_clear_leaf h hcl
+    · simp only [Option.some.injEq] at hs; subst hs
+      u_leaf h ao s
   all_goals (simp only [Option.some.injEq] at hs; subst hs)
   all_goals u_leaf h ao s
 
